@@ -2,6 +2,7 @@
 mod astjson;
 mod lex;
 mod parse;
+mod total;
 mod util;
 
 fn main() {
@@ -16,6 +17,15 @@ fn main() {
         "parse-replay" => parse::replay(rest),
         "parse-record" => parse::record(rest),
         "parse-one" => parse::one(rest),
+        "total-replay" => total::replay(rest),
+        "total-record" => total::record(rest),
+        "pump" => total::pump(rest),
+        "pump-list" => total::pump_list(),
+        "render-replay" => parse::render_replay(rest),
+        "render-record" => parse::render_record(rest),
+        "render-one" => parse::render_one(rest),
+        "layout-replay" => parse::layout_replay(rest),
+        "paren-replay" => parse::paren_replay(rest),
         other => util::tool_error(&format!("unknown command {}", other)),
     }
 }
